@@ -370,6 +370,10 @@ func runC10(o *hx.Out, r *hx.Rand, thorough bool) {
 				s.isolated = false
 				desc["long_lived_MD_object_changed_between_calls"] = bad
 			}
+			if bad := httpNamedKeysProbe(); bad != "" {
+				s.isolated = false
+				desc["metadata_keys_named_like_HTTP_headers"] = bad
+			}
 		}
 		if !ran {
 			// a cancelled caller context may end the call before the handler starts: nothing to compare
@@ -507,6 +511,52 @@ func mdReusedObjectProbe() string {
 		}
 		if saw != want {
 			return fmt.Sprintf("call %d carried %s, the handler saw %s", i, want, saw)
+		}
+	}
+	return ""
+}
+
+// httpNamedKeysProbe: in process there are no HTTP headers: caller metadata under keys that happen to be names of
+// HTTP headers (a relaying proxy passes such keys on) reaches the handler like any other
+func httpNamedKeysProbe() string {
+	keys := []string{"te", "trailer", "upgrade", "keep-alive", "content-type", "connection", "accept-encoding", "content-length", "transfer-encoding", "host", "k"}
+	var saw metadata.MD
+	c := &inprocgrpc.Channel{}
+	c.RegisterService(hx.Desc(hx.SvcName), &hx.Svc{
+		Unary: func(ctx context.Context, req *hx.Msg) (*hx.Msg, error) {
+			saw, _ = metadata.FromIncomingContext(ctx)
+			return &hx.Msg{}, nil
+		},
+		Stream: func(kind string, ss grpc.ServerStream) error {
+			saw, _ = metadata.FromIncomingContext(ss.Context())
+			return nil
+		}})
+	for _, stream := range []bool{false, true} {
+		md := metadata.MD{}
+		for i, k := range keys {
+			md.Set(k, fmt.Sprint("v", i))
+		}
+		ctx := metadata.AppendToOutgoingContext(metadata.NewOutgoingContext(context.Background(), md), "Upgrade", "appended")
+		saw = nil
+		if stream {
+			cs, err := c.NewStream(ctx, hx.StreamDescOf("BD"), "/verif.Svc/BD")
+			if err != nil {
+				return err.Error()
+			}
+			cs.CloseSend()
+			cs.RecvMsg(&hx.Msg{})
+			runtime.KeepAlive(cs)
+		} else if err := c.Invoke(ctx, "/verif.Svc/U", &hx.Msg{}, &hx.Msg{}); err != nil {
+			return err.Error()
+		}
+		for i, k := range keys {
+			want := []string{fmt.Sprint("v", i)}
+			if k == "upgrade" {
+				want = append(want, "appended")
+			}
+			if fmt.Sprint(saw.Get(k)) != fmt.Sprint(want) {
+				return fmt.Sprintf("stream=%v: key %q carried %v, the handler saw %v", stream, k, want, saw.Get(k))
+			}
 		}
 	}
 	return ""
